@@ -24,6 +24,9 @@ def dispatch (op : String) (payload : Json) : R Json :=
   | "resolve_import" => C06.handle payload
   | "import_symbols" => C06.handleSymbols payload
   | "import_spec" => C06.handleSpec payload
+  | "blacklist" => C06.handleBlacklist payload
+  | "regex" => C06.handleRegex payload
+  | "resolve_local" => C06.handleLocal payload
   | "annotation" => C11.handleAnnotation payload
   | "file_decision" => C11.handleDecision payload
   | "is_name" => C11.handleIsName payload
